@@ -53,7 +53,7 @@ fn datum_of(n: usize, dotted: bool) -> Datum {
 
 /// Runs one cell; returns a short description of what was computed (to keep the optimiser honest).
 fn run_cell(op: &str, builder: &str, n: usize, dotted: bool) -> String {
-    let needs_value = !matches!(op, "parse_value" | "parse_datum" | "datum_clone" | "datum_eq" | "datum_drop" | "datum_walk" | "parse_dotted_chain" | "serde_to_value" | "serde_from_map"
+    let needs_value = !matches!(op, "parse_value" | "parse_datum" | "datum_clone" | "datum_eq" | "datum_drop" | "datum_walk" | "parse_dotted_chain" | "eq_differing" | "drop_in_unwind" | "serde_to_value" | "serde_from_map"
                                    | "serde_to_value_map" | "serde_from_str" | "serde_to_string");
     let v = if needs_value { build(builder, n, dotted) } else { Value::Null };
     match op {
@@ -131,6 +131,29 @@ fn run_cell(op: &str, builder: &str, n: usize, dotted: bool) -> String {
             }
             let v: Value = d.into();
             format!("{} {}", k, v.is_cons())
+        }
+        "eq_differing" => {
+            // two lists of the same length that differ in every position (and one that differs only at the end)
+            let tail = if dotted { Value::symbol("x") } else { Value::Null };
+            let a = Value::append((0..n).map(|i| Value::from((i % 10) as u64)), tail.clone());
+            let b = Value::append((0..n).map(|i| Value::from(((i + 1) % 10) as u64)), tail.clone());
+            let c = Value::append((0..n).map(|i| Value::from((if i + 1 == n { 11 } else { i % 10 }) as u64)), tail);
+            let d = lexpr::datum::from_reader(list_text(n, dotted).as_bytes()).expect("datum");
+            let e = lexpr::datum::from_reader(list_text(n, dotted).replace('1', "2").as_bytes()).expect("datum");
+            format!("{} {} {} {}", a == b, a != c, b == c, d == e)
+        }
+        "drop_in_unwind" => {
+            // a long list owned by a frame that panics: the unwinder drops it; the panic must stay recoverable
+            let l = build(builder, n, dotted);
+            let d = datum_of(n.min(200_000), dotted);
+            let r = std::panic::catch_unwind(std::panic::AssertUnwindSafe(move || {
+                let keep = (l, d);
+                if keep.0.is_cons() || keep.0.is_null() {
+                    panic!("deliberate");
+                }
+                0usize
+            }));
+            format!("{}", r.is_err())
         }
         "parse_dotted_chain" => {
             // (0 . (1 . (2 . ... ()))) nests by the parser's own accounting: it must be refused by the nesting limit
